@@ -19,7 +19,7 @@ func (p *Prog) vdescN(v ssa.Value, depth int) string {
 	if v == nil {
 		return "nil"
 	}
-	if depth == 0 {
+	if depth <= 0 {
 		return "…"
 	}
 	switch x := v.(type) {
